@@ -123,8 +123,8 @@ add("C17", True, "E2-enum", "exploration",
 
 add("C07", True, "E6-e2e", "exploration",
     "exhaustive enumeration of creation orders x pause positions x durability x topic kind x payload size x deterministic loss x deletion kind, each scenario a fresh process with two real participants driven through the public API only",
-    "All 35 interleavings of P1 < topic < writer < first writes and P2 < topic < reader. Quick: each order with a 4 s pause (discovery goes quiescent) before the later endpoint creation, durability alternating, plus deletion of the reader / the writer / the reader's participant, one no_key, one fragmented and one lossy scenario (41 scenarios, 16 in parallel). Thorough (about 725 scenarios): x {Volatile, TransientLocal} x pause at no / every single position / before both endpoint creations; and on the 10 orders starting P1, P2: payload sizes on both sides of the 1024-byte fragment limit in every residue mod 4 and 5000 bytes, no_key topics, deterministic aperiodic loss through the network seam (datagram k dropped when a fixed hash of (k, pattern) is 0 mod m; six (m, pattern), rates 1/3 to 1/7), the three deletions. Oracle: both sides report the match within 30 s of the last creation; a second batch (three values, one instance disposal) written while matched arrives; the reader takes exactly the acceptable sequence - TransientLocal: both batches complete and in order; Volatile late joiner: nothing of the first batch; reader created before the writes but match possibly incomplete: any suffix of the first batch - and nothing more; a deletion is observed by the peer as an unmatch within 30 s.",
-    "The interleaving of each participant's event-loop and discovery threads inside a scenario is the operating system's, not enumerated (the enumeration is over the driver's steps and the environment's deterministic loss). A failing scenario is repeated once in a fresh process and reported only if it fails again. Security-enabled participants are not part of this check (the secure pipeline is driven by C16/C17/C19). Three-participant orders are not enumerated.",
+    "All 35 interleavings of P1 < topic < writer < first writes and P2 < topic < reader. Quick: each order with a 4 s pause (discovery goes quiescent) before the later endpoint creation, durability alternating, plus five deletion scenarios (reader, writer, the reader's participant; reader followed by a new writer and writer followed by a new reader, which must find nothing to match), one no_key, one fragmented and one lossy scenario, and four scenarios with DDS Security enabled (47 scenarios, 16 in parallel). Thorough (about 725 scenarios): x {Volatile, TransientLocal} x pause at no / every single position / before both endpoint creations; and on the 10 orders starting P1, P2: payload sizes on both sides of the 1024-byte fragment limit in every residue mod 4 and 5000 bytes, no_key topics, deterministic aperiodic loss through the network seam (datagram k dropped when a fixed hash of (k, pattern) is 0 mod m; six (m, pattern), rates 1/3 to 1/7), the five deletion scenarios; security enabled (real authentication, key exchange and protection over the network, identities and signed documents from the fixtures): 6 governance documents x 11 topics of all metadata x data protection kinds, payload sizes 10 / 13 / 1501 bytes. Oracle: both sides report the match within 30 s of the last creation; a second batch (three values, one instance disposal) written while matched arrives; the reader takes exactly the acceptable sequence - TransientLocal: both batches complete and in order; Volatile late joiner: nothing of the first batch; reader created before the writes but match possibly incomplete: any suffix of the first batch - and nothing more; a deletion is observed by the peer as an unmatch within 30 s.",
+    "The interleaving of each participant's event-loop and discovery threads inside a scenario is the operating system's, not enumerated (the enumeration is over the driver's steps and the environment's deterministic loss). A failing scenario is repeated once in a fresh process and reported only if it fails again. Security-enabled scenarios run in the sibling binary built with cargo feature security. Three-participant orders are not enumerated.",
     "5.7")
 
 NOT_YET = {}
